@@ -13,6 +13,16 @@ REALS_AXIOMS = ["ClassicalDedekindReals.sig_forall_dec", "ClassicalDedekindReals
                 "FunctionalExtensionality.functional_extensionality_dep"]
 
 PROPS = {
+    "C06": {
+        "drivers": [{"src": "drv_C06.C", "repo_sources": ["mode.cpp", "sample.cpp", "square_modulated_mode.cpp", "util/Pauli.C"]}],
+        "coq": ["Tie_C06.v", "Properties_C06.v"],
+        "coq_thorough": ["Tie_C06_thorough.v"],
+        "thm_files": ["SampleModel.v"],
+        "assumptions": ["pattern G: the loops of sample::get_covariance/get_crosscovariance are tied to the all-n formulas at n = 1..6 (quick) / 1..10 (thorough), sample lags 0..3; uniformity of the loop in n between grid points is read off the source",
+                        "sample_size*sample_size is computed in unsigned arithmetic; the model is stated for n < 65536 (no wrap)",
+                        "stub mode with arbitrary symbolic stationary sequence c, x_l times a fixed pattern matrix (the matrix operations are entrywise)"],
+        "trusted_base": [],
+    },
     "C14": {
         "drivers": [{"src": "drv_C14.C", "repo_sources": []}],
         "coq": ["Tie_C14.v", "Properties_C14.v"],
